@@ -77,6 +77,8 @@ type Thread struct {
 	// Local is scratch space for fakes that need per-thread data.
 	Local    map[string]interface{}
 	memPoint bool
+	memAfter string
+	memSeq   string // site of the directly preceding announcements (same statement)
 }
 
 func (t *Thread) String() string { return t.Name }
@@ -301,6 +303,7 @@ func (t *Thread) park() {
 		t.bail()
 		return
 	}
+	t.memSeq = ""
 	s.back <- struct{}{}
 	<-t.grant
 	if s.abort {
